@@ -618,14 +618,17 @@ class C05(Property):
         boundary (a check-then-act window is one call wide), at the boundary just before k, and a second fault at every later call."""
         c0 = dict(base, plan=[])
         calls = self.learn_calls(c0)
+        raws = self.__dict__['_memo'][self.key(c0)]['first'].get('raw') or []
         fam = errnos if errnos is not None else errno_values(source_errnos() + ERRNO_CLASS_NAMES)
         for k, name in enumerate(calls):
             if sites is not None and name not in sites:
                 continue
+            # a call on the destination alone (stat / lstat / access / a read-only open of it ...) is a PROBE of the file to replace
+            dest_probe = name in PROBE_CALLS or (k < len(raws) and raws[k].split(';')[1:2] == ['d'])
             e0 = SITE_ERRNO.get(name, errno.EIO)
             ref_calls, ref_out = self.run_sig(dict(base, plan=[[k, e0]]))
             for e in fam:
-                if e == errno.ENOENT and name in PROBE_CALLS:
+                if e == errno.ENOENT and dest_probe:
                     continue        # a probe answering "no such file" is not a failure (and a lie when the file is there)
                 c1 = dict(base, plan=[[k, e]])
                 calls_e, out_e = self.run_sig(c1)
@@ -1409,6 +1412,13 @@ class C05(Property):
         if self.pf_is_dest(case):
             self._nt = True
             return self.judge_alias(case, obs)
+        if ((case.get('kwform') or case.get('pathform') == 1) and o['out'] not in ('ok', 'body') and not o['calls']
+                and o['dest'] == case['dest'] and o['part'] == case['part'] and not o['extra']):
+            # the documentation promises bool flags and a str path: an implementation may REFUSE ints / truth-value objects /
+            # a pathlib.Path outright (before it touches anything); what it must not do is misread them
+            st['form-refused'] = st.get('form-refused', 0) + 1
+            self._nt = True
+            return None
         f = self.judge_save(case, o)
         self._nt = not o['pub']
         if f is not None:
